@@ -530,7 +530,10 @@ class Fn:
                     out |= hit[0]
                     continue
             if n[0] == 'tuple' and name.isdigit() and int(name) < len(n[1]):
-                out |= n[1][int(name)]
+                # component k of a tuple literal; `rec.k` at position k (the component carried round a loop unchanged, as in
+                # a tuple accumulator `acc = if c {(i, d)} else {(acc.0, acc.1)}`) adds nothing to the set of origins
+                out |= {m for m in n[1][int(name)]
+                        if not (m[0] == 'field' and m[2] == name and m[1] and all(q[0] == 'rec' for q in m[1]))}
                 continue
             if n[0] == 'closure' and name.isdigit() and int(name) < len(n[2]):
                 out |= n[2][int(name)]          # captured variable k of a closure literal (after closure inlining)
@@ -702,7 +705,7 @@ class Fn:
             return T(('repeat', self.op_terms(rv['op'], point), rv['n']))
         return T(('unknown', 'rvalue:' + rv.get('dbg', k)[:40]))
 
-    def split_defs(self, op, point, depth=0):
+    def split_defs(self, op, point, depth=0, _seen=None):
         """A4: the reaching definitions of an operand kept apart: list of (def block, def idx, terms).
         Compiler temporaries and single-definition copies are transparent; a variable with several reaching
         definitions yields one entry per definition, located at that definition, carrying the (merged) terms
@@ -711,19 +714,47 @@ class Fn:
             return [(point[0], point[1], self.op_terms(op, point))]
         pl = op.get('move') or op.get('copy')
         if pl is not None and len(pl['p']) == 1 and isinstance(pl['p'][0], dict) and 'f' in pl['p'][0]:
-            # `x.k` where x has a single whole definition that is a copy or a tuple literal: follow component k
-            # (the destructuring of a helper's tuple result, also after inlining)
+            # `x.k` where every whole definition of x is a copy or a tuple literal: follow component k per definition
+            # (the destructuring of a helper's tuple result, also after inlining; a tuple accumulator of a fold written
+            # as a loop: definitions that only carry the component round the loop are dropped)
             evs, entry = self.reaching(pl['l'], point, (), True, whole_only=True)
-            if len(evs) == 1 and not entry:
-                e = evs[0]
-                if e.kind == 'assign' and e.data['k'] == 'assign' and not e.path:
+            seen = _seen if _seen is not None else set()
+            key = (pl['l'], pl['p'][0]['f'])
+            if evs and not entry and key not in seen and depth <= 12:
+                seen = seen | {key}
+                out = []
+                ok = True
+                carried = False
+                for e in evs:
+                    if not (e.kind == 'assign' and e.data['k'] == 'assign' and not e.path):
+                        ok = False
+                        break
                     rv = e.data['rv']
                     if rv['k'] == 'use':
                         src = rv['op'].get('move') or rv['op'].get('copy')
-                        if src is not None and not src['p']:
-                            return self.split_defs({'copy': {'l': src['l'], 'p': list(pl['p'])}}, (e.block, e.idx), depth + 1)
+                        if src is None or src['p']:
+                            ok = False
+                            break
+                        if (src['l'], pl['p'][0]['f']) in seen:
+                            carried = True
+                            continue            # carried round the loop
+                        out.extend(self.split_defs({'copy': {'l': src['l'], 'p': list(pl['p'])}}, (e.block, e.idx), depth + 1, seen))
                     elif rv['k'] == 'agg' and rv.get('agg') == 'tuple' and pl['p'][0]['f'] < len(rv['fields']):
-                        return self.split_defs(rv['fields'][pl['p'][0]['f']], (e.block, e.idx), depth + 1)
+                        fo = rv['fields'][pl['p'][0]['f']]
+                        fp = fo.get('move') or fo.get('copy')
+                        if fp is not None and len(fp['p']) == 1 and isinstance(fp['p'][0], dict) and 'f' in fp['p'][0] and \
+                                (fp['l'], fp['p'][0]['f']) in seen:
+                            carried = True
+                            continue
+                        sub = self.split_defs(fo, (e.block, e.idx), depth + 1, seen)
+                        out.extend(sub)
+                    else:
+                        ok = False
+                        break
+                if ok and (out or len(evs) > 1 or carried):
+                    return out
+            elif key in seen:
+                return []
         if pl is None or pl['p']:
             return [(point[0], point[1], self.op_terms(op, point))]
         evs, entry = self.reaching(pl['l'], point, (), True, whole_only=True)
@@ -734,7 +765,7 @@ class Fn:
         for e in evs:
             is_copy = e.kind == 'assign' and e.data['k'] == 'assign' and e.data['rv']['k'] == 'use' and not e.path
             if is_copy and n_defs == 1:
-                inner = self.split_defs(e.data['rv']['op'], (e.block, e.idx), depth + 1)
+                inner = self.split_defs(e.data['rv']['op'], (e.block, e.idx), depth + 1, _seen)
                 if len(inner) == 1:
                     # a plain move: the value is unchanged, keep the latest location (most facts known)
                     out.append((e.block, e.idx, inner[0][2]))
